@@ -18,6 +18,8 @@ class Interp(ExprMixin, StmtMixin, CallMixin, _Base):
     pass
 
 
+OPAQUE_STR = {'str.join', 'str.strip', 'str.replace', 'str.format', 'str.lower', 'str.upper', 'str.rstrip', 'str.lstrip', 'os.linesep', 'os.path.join',
+              'os.path.normpath', 'os.path.dirname', 'os.path.expanduser', 'os.getcwd', 'str.hex'}
 BUILTIN_CLASSES = ['list', 'dict', 'pset', 'set', '$box', 'tuple', 'function', 'object', 'module', 'NoneType']
 BUILTIN_NAMES = {'isinstance', 'len', 'str', 'int', 'bool', 'list', 'dict', 'tuple', 'set', 'type', 'object', 'id',
                  'getattr', 'setattr', 'hasattr', 'super', 'range', 'enumerate', 'reversed', 'zip', 'iter', 'next',
@@ -366,6 +368,9 @@ class Engine:
         if eff is not None:
             it.run.event(eff, lineno=getattr(n, 'lineno', None), args=a, heap=it.heap.snapshot(), index=len(it.run.events))
             return self.effect_result(it, name, a, kw, n)
+        if name in OPAQUE_STR:
+            # text manipulation whose value is never used for a decision in the functions under contract: an opaque string
+            return SV(Val.str(it.run.fresh(name.replace('.', '_'), z3.StringSort())))
         op = self.registry.opaque.get(name)
         if op is not None:
             return op(it, a, kw, n, fr) if callable(op) else SV(it.run.fresh(name.replace('.', '_')))
@@ -423,9 +428,12 @@ class Engine:
                 r = z3.IntVal(p.kw.get('ref') or refs())
             if p.kind == 'node':
                 cls = p.kw['cls']
-                classes = [cls] if p.kw.get('exact') else [c for c in self.classes_under(cls) if c in self.node_classes or c == cls and c not in ('ConfigNode', 'ComposedNode', 'ConfigScalar', 'ConfigScalarMarker')]
                 if isinstance(cls, (list, tuple)):
                     classes = list(cls)
+                elif p.kw.get('exact'):
+                    classes = [cls]
+                else:
+                    classes = [c for c in self.classes_under(cls) if c in self.node_classes or c == cls and c not in ('ConfigNode', 'ComposedNode', 'ConfigScalar', 'ConfigScalarMarker')]
                 if len(classes) == 1:
                     if z3.is_int_value(r):
                         run.heap.a['$cls'] = z3.Store(run.heap.arr('$cls'), r, z3.IntVal(self.class_id(classes[0])))
